@@ -378,6 +378,9 @@ func Alphabet(name string) []Recipe {
 	switch name {
 	case "full":
 		return all
+	case "edge":
+		// the recipes that push amounts against the 2^64 edge in the near-max world
+		return Alphabet("empty|send-edges(A4->A6 all+1; A5->A4 0; A7->A4 all)|cert:reward-split(A4 34,V1 33,V3 32)|dao-transfer-mint(7 to A6)|subsidy(A4->pool1 fee; A5->pool2 1; A6->pool1 0)|cert:double-sign(V1,V2)")
 	case "staking":
 		var out []Recipe
 		for _, r := range all {
